@@ -95,6 +95,41 @@ Definition rl_lit_o3 : rl_bytes := [34;112;97;114;97;109;115;34;58;123;34;105;10
 Definition rl_mk_omsg (zname : option rl_bytes) (id ts : Z) : rl_bytes :=
   rl_lit_o1 ++ match zname with Some n => rl_lit_o2 ++ n ++ [34;44] | None => [] end ++ rl_lit_o3 ++ rl_digits id ++ rl_lit_m2 ++ rl_digits ts ++ [125].
 
+(* ---- the operation of the correspondence run: a message with timestamp ts and originZone oz (-1: none) arrives from
+   endpoint id (MessageHandler: timestamp filter, origin), its handler relays an event about sec on (SyncRelayMessage) ---- *)
+Record rl_fromres := { rl_fr_acc : bool; rl_fr_logged : bool; rl_fr_live : list Z; rl_fr_st : rl_st }.
+Definition rl_from (t : rl_topo) (now id ts oz : Z) (sec : option (rl_bytes * rl_bytes)) (msg : rl_bytes) (st : rl_st) : rl_fromres :=
+  match rl_get_ep (rl_eps st) id with
+  | None => {| rl_fr_acc := false; rl_fr_logged := false; rl_fr_live := []; rl_fr_st := st |}
+  | Some _ =>
+      let '(acc, st1) := rl_recv id ts st in
+      if acc then match rl_get_ep (rl_eps st1) id with
+                  | Some e => let r := rl_relay_o (rl_origin_of t e oz) t now sec msg st1 in
+                              {| rl_fr_acc := true; rl_fr_logged := rl_rl_logged r; rl_fr_live := rl_rl_live r; rl_fr_st := rl_rl_st r |}
+                  | None => {| rl_fr_acc := true; rl_fr_logged := false; rl_fr_live := []; rl_fr_st := st1 |} end
+      else {| rl_fr_acc := false; rl_fr_logged := false; rl_fr_live := []; rl_fr_st := st1 |}
+  end.
+
+Record rl_xfromres := { rl_xfr_acc : bool; rl_xfr_logged : bool; rl_xfr_live : list Z; rl_xfr_st : rl_xst }.
+Definition rl_x_from (t : rl_topo) (now id ts oz : Z) (sec : option (rl_bytes * rl_bytes)) (msg : rl_rle) (st : rl_xst) : rl_xfromres :=
+  match rl_get_ep (rl_x_eps st) id with
+  | None => {| rl_xfr_acc := false; rl_xfr_logged := false; rl_xfr_live := []; rl_xfr_st := st |}
+  | Some _ =>
+      let '(acc, st1) := rl_x_recv id ts st in
+      if acc then match rl_get_ep (rl_x_eps st1) id with
+                  | Some e => let r := rl_x_relay_o (rl_origin_of t e oz) t now sec msg st1 in
+                              {| rl_xfr_acc := true; rl_xfr_logged := rl_xrl_logged r; rl_xfr_live := rl_xrl_live r; rl_xfr_st := rl_xrl_st r |}
+                  | None => {| rl_xfr_acc := true; rl_xfr_logged := false; rl_xfr_live := []; rl_xfr_st := st1 |} end
+      else {| rl_xfr_acc := false; rl_xfr_logged := false; rl_xfr_live := []; rl_xfr_st := st1 |}
+  end.
+
+(* the zone the relayed message names as originZone: origin->FromZone *)
+Definition rl_from_origin_zone (t : rl_topo) (eps : list rl_ep) (id oz : Z) : Z :=
+  match rl_get_ep eps id with
+  | Some e => match rl_origin_of t e oz with Some (_, z) => z | None => -1 end
+  | None => -1
+  end.
+
 (* ---- histories with arriving messages ---- *)
 Inductive rl_ohop :=
 | RlOBase (op : rl_hop)                                             (* everything RlHistory has *)
